@@ -195,6 +195,16 @@ func main() {
 				case 3: // bitmap names members that did not sign
 					full := sim.SignersForPower(vs, vs.MinimumMaj23)
 					signerIdx = full[:len(full)-1]
+					if len(signerIdx) == 0 {
+						// one dominant member reaches the threshold alone: the genuine minority is then the weakest member
+						weakest := 0
+						for i, m := range vs.ValidatorSet.ValidatorSet {
+							if m.VotingPower < vs.ValidatorSet.ValidatorSet[weakest].VotingPower {
+								weakest = i
+							}
+						}
+						signerIdx = []int{weakest}
+					}
 					for i := 0; i < nMembers; i++ {
 						in := false
 						for _, s := range signerIdx {
